@@ -1,4 +1,5 @@
 #include <occa/internal/lang/expr/charNode.hpp>
+#include <occa/internal/lang/token/charToken.hpp>
 
 namespace occa {
   namespace lang {
@@ -22,7 +23,21 @@ namespace occa {
     }
 
     void charNode::print(printer &pout) const {
-      pout << '\'' << escape(value, '\'') << '\'';
+      // The encoding prefix and the suffix are part of the literal's type:
+      //   L'a', u'a', U'a', 'a'_udf
+      std::string udf;
+      if (token_t::safeType(token) & tokenType::char_) {
+        const charToken &chrToken = *((const charToken*) token);
+        if (chrToken.encoding & encodingType::u) {
+          pout << 'u';
+        } else if (chrToken.encoding & encodingType::U) {
+          pout << 'U';
+        } else if (chrToken.encoding & encodingType::L) {
+          pout << 'L';
+        }
+        udf = chrToken.udf;
+      }
+      pout << '\'' << escape(value, '\'') << '\'' << udf;
     }
 
     void charNode::debugPrint(const std::string &prefix) const {
